@@ -10,6 +10,12 @@ CHECKS = {
     "C02": dict(tech="TLC-generated single-deviation programs replayed on the real code (must be rejected); TLC trace validation (IdealSoundness) on toy31723 with re-run of lucky accepts",
                 text="Every single violated constraint or gate of every bounded program is pushed through the unmodified proving code (guarded gate-overwrite hook) and must be rejected on all curves; the model's DeviationIffUnsatisfied invariant ties the expectation to the statement semantics.",
                 note="bounded call depth; one deviation per program; Schwartz-Zippel luck on the toy curve handled by re-running with fresh randomness", ref="5 C02"),
+    "C03": dict(tech="TLC trace validation on toy curves: the verifier's verdict is recomputed from the recorded statement, proof and challenges (combined check, unbatched relations with explicit folding)",
+                text="For every verify call recorded on toy7/toy79/toy31723 (honest, bad-witness and tampered proofs) TLC recomputes the specification's verdict, the residuals Tres and Ires of the unbatched relations and the combined residual, and demands verdict equality, mega = Ires + r*Tres and verdict = relations up to the single colliding r; small groups make a mis-weighted or dropped term visible.",
+                note="toy curves only (exact recomputation needs P^2 < 2^31); the library code is curve-generic, so the same monomorphised logic runs on the real curves; challenge scalars taken as derived by the code (hook H3)", ref="5 C03"),
+    "C06": dict(tech="TLC trace validation of traced-Merlin operation logs of both roles against the specification's operation schedule (order-preserving embedding), RoleSync invariant",
+                text="Every transcript operation of prover and verifier (label, payload identity, order, challenges, forks, RNG construction) recorded from the real code is matched by TLC against the schedule the specification derives for the statement and proof shape; returned transcripts must drive equal follow-up challenges.",
+                note="payload identity by value on toy curves; extra identical appends tolerated (C18 demands equality)", ref="5 C06"),
     "C16": dict(tech="TLC model checking of the lock-step builder model (MC_Builder) + replay of every generated call sequence on the real Prover and Verifier",
                 text="All call sequences up to the bound are enumerated by TLC (mirror/pending/error invariants) and each is replayed on the real code comparing handles, error kinds and gate counts call by call in both phases.",
                 note="bounded call depth (6-8 for invariants, 4-5 for replay); second-phase calls placed in the first callback", ref="5 C16"),
